@@ -45,6 +45,7 @@ SignKey(e) ==
 VerifyKey(e) ==
   LET v == View(e.buf)  p == Parse(e.keyowner) IN
   IF p.st # "ok" \/ ~p.fq THEN "trace/verify-keyowner-not-a-name"
+  ELSE IF ~e.unchanged THEN "sig0/verify-modifies-input"       \* Verify reads its input: the caller's octets are the same after the call, whatever it returns
   ELSE IF ~v.ok THEN (IF e.accepted THEN "sig0/verify-accepts-invalid:malformed" ELSE "")
   ELSE IF v.signed # e.signed THEN "trace/verify-signed-octets-differ"       \* sigvalid would be about other octets
   ELSE
